@@ -83,7 +83,8 @@ REQUIRED_CLAUSES = ["args-unchanged", "module-tables-unchanged",
                     "illtyped->TypeError|ValueError", "copies-independent",
                     "out-of-range->TypeError|ValueError|value",
                     "reused-argument-objects", "results-own-their-state",
-                    "result-is-not-an-argument-object", "public-api-present"]
+                    "result-is-not-an-argument-object", "public-api-present",
+                    "interleaved-calls==sequential"]
 
 
 # ------------------------------------------------------------------ discovery
@@ -137,6 +138,10 @@ def shards(tier, seed):
                 "npairs": 0})
     out.append({"name": "suite", "module": "__suite__", "ncalls": 0,
                 "npairs": 0})
+    for k in range(4 if tier == "thorough" else 1):
+        out.append({"name": "threads-%d" % k, "module": "__threads__",
+                    "ncalls": 1500 if tier == "thorough" else 200,
+                    "npairs": 0})
     return out
 
 
@@ -1132,6 +1137,154 @@ def case_module(mon, module, ncalls, npairs, seedval):
     mon.hit("targets-without-generator", len(uni.without_generator))
 
 
+def case_threads(mon, njobs, seedval):
+    """'In any order relative to other calls': the same calls made from four
+    threads at once (switch interval 1 us, so that calls interleave at the
+    bytecode level) return what they returned one after the other.  Every
+    thread works on its own deep copies of the arguments and receivers, so
+    nothing is shared between the threads but the library itself.  Only calls
+    that were observed to overlap a call of another thread count as checked;
+    the comparison is made after the threads have been joined.  On top of the
+    short switch interval, a sys.monitoring LINE callback restricted to the
+    library's own files gives up the GIL at one statement in eight inside the
+    worker threads (yield injection), so that another thread runs between two
+    statements of one library function, not only between calls."""
+    import itertools
+    import sys
+    import threading
+    rng = random.Random(seedval)
+    uni = Universe(mon, rng)
+    everything = [t for t in discover()
+                  if t[3] not in RETURNS_NONE
+                  and t[0].split(".", 1)[1] not in MUTATORS]
+    NT = 4
+    jobs = []
+    while len(jobs) < njobs:
+        # one target, NT different argument sets: thread k gets set k, so
+        # that the threads are inside the same function with different data
+        t = rng.choice(everything)
+        sets = []
+        for _ in range(NT):
+            b = uni.build(t)
+            if b is None:
+                break
+            fn, args, inst, short = b
+            mine = (copy.deepcopy(args), copy.deepcopy(inst))
+            try:
+                ref = snap(fn(args))
+            except Exception:
+                break
+            sets.append((ref, mine))
+        if len(sets) == NT:
+            jobs.append((t, sets))
+
+    def one(t, a, i):
+        if i is not None:
+            return ap(getattr(i, t[3]), a)
+        return ap(resolve(t)[0], a)
+
+    tick = itertools.count()
+    out = [[None] * len(jobs) for _ in range(NT)]
+    # first half: all threads take the jobs in the same order and meet at a
+    # barrier before each (same function at the same time); second half:
+    # each thread in its own order (different functions at the same time)
+    half = len(jobs) // 2
+    orders = []
+    for k in range(NT):
+        o = list(range(half, len(jobs)))
+        random.Random(seedval + k).shuffle(o)
+        orders.append(list(range(half)) + o)
+    go = threading.Event()
+    meet = threading.Barrier(NT)
+
+    def work(k):
+        go.wait()
+        for n, j in enumerate(orders[k]):
+            if n < half:
+                meet.wait()
+            t, sets = jobs[j]
+            a, i = sets[k][1]
+            s0 = next(tick)
+            try:
+                r = ("value", snap(one(t, a, i)))
+            except Exception as ex:
+                r = ("raised", repr(ex))
+            out[k][j] = (s0, next(tick), r)
+
+    import time
+    import pymeeus
+    libdir = os.path.dirname(os.path.abspath(pymeeus.__file__)) + os.sep
+    workers = {}
+    yields = [0] * NT
+    sm = getattr(sys, "monitoring", None)
+    YT = 4
+
+    def on_line(code, line):
+        if not code.co_filename.startswith(libdir):
+            return sm.DISABLE
+        w = workers.get(threading.get_ident())
+        if w is not None and w[1].random() < 0.125:
+            yields[w[0]] += 1
+            time.sleep(0)
+
+    def work_(k):
+        workers[threading.get_ident()] = (k, random.Random(seedval * 7 + k))
+        work(k)
+
+    old = sys.getswitchinterval()
+    sys.setswitchinterval(1e-6)
+    if sm is not None:
+        try:
+            sm.use_tool_id(YT, "vpm-yield")
+        except ValueError:
+            pass
+        sm.register_callback(YT, sm.events.LINE, on_line)
+        sm.set_events(YT, sm.events.LINE)
+    try:
+        ths = [threading.Thread(target=work_, args=(k,)) for k in range(NT)]
+        for th in ths:
+            th.start()
+        go.set()
+        for th in ths:
+            th.join()
+    finally:
+        sys.setswitchinterval(old)
+        if sm is not None:
+            sm.set_events(YT, 0)
+            sm.register_callback(YT, sm.events.LINE, None)
+            sm.free_tool_id(YT)
+    mon.hit("yields-injected-inside-library-functions", sum(yields))
+    # which calls overlapped a call of another thread
+    spans = sorted((out[k][j][0], out[k][j][1], k, j)
+                   for k in range(NT) for j in range(len(jobs)))
+    overlapped = set()
+    open_ = []
+    for s0, s1, k, j in spans:
+        open_ = [x for x in open_ if x[1] > s0]
+        for x in open_:
+            if x[2] != k:
+                overlapped.add((k, j))
+                overlapped.add((x[2], x[3]))
+        open_.append((s0, s1, k, j))
+    mon.hit("threaded-calls", NT * len(jobs))
+    mon.hit("threaded-calls-overlapping-another-thread", len(overlapped))
+    for k in range(NT):
+        for j in range(len(jobs)):
+            t, sets = jobs[j]
+            ref = sets[k][0]
+            mon.evals += 1
+            if (k, j) not in overlapped:
+                continue
+            mon.cls("interleaved-call", (t[0], ref))
+            kind, val = out[k][j][2]
+            mon.check("interleaved-calls==sequential",
+                      kind == "value" and val == ref,
+                      lambda: {"target": t[0], "thread": k,
+                               "sequential": repr(ref)[:300],
+                               "interleaved": repr(val)[:300]})
+    uni.quiesce(force=True)
+
+
 def case_inventory(mon):
     """Every public function and method the pinned tree has is still there
     (possibly decorated) and of the same kind; totality is quantified over
@@ -1490,7 +1643,7 @@ def key_oor(name, ex):
 
 
 CASES = {"inventory": case_inventory, "kworder": case_kworder, "module": case_module, "copies": case_copies,
-         "out_of_range": case_out_of_range}
+         "out_of_range": case_out_of_range, "threads": case_threads}
 
 
 def run(mon, spec):
@@ -1501,6 +1654,10 @@ def run(mon, spec):
         from vpm import suite
         mon.begin("suite", [])
         suite.run_suite(mon, "digests")
+        return
+    if spec["module"] == "__threads__":
+        mon.begin("threads", [spec["ncalls"], sv])
+        case_threads(mon, spec["ncalls"], sv)
         return
     if spec["module"] == "__copies__":
         mon.begin("copies", [sv])
